@@ -702,31 +702,35 @@ func (self Node) Gets(keys []PathNode, opts *Options) error {
 	}
 
 	need := len(keys)
+	// every pair is read exactly once and compared with all the requested keys
+	mode := keys[0].Path.Type()
 	for count := 0; it.HasNext() && count < need; {
-		for j, id := range keys {
-			if id.Path.Type() == PathStrKey {
-				exp := id.Path.str()
-				_, key, s, e := it.NextStr(UseNativeSkipForGet)
-				if it.Err != nil {
-					return errNode(meta.ErrRead, "", it.Err)
-				}
-				if key == exp {
-					keys[j].Node = self.slice(s, e, et)
-					count += 1
-					break
-				}
-			} else if id.Path.Type() == PathIntKey {
-				exp := id.Path.int()
-				_, key, s, e := it.NextInt(UseNativeSkipForGet)
-				if it.Err != nil {
-					return errNode(meta.ErrRead, "", it.Err)
-				}
-				if key == exp {
+		if mode == PathStrKey {
+			_, key, s, e := it.NextStr(UseNativeSkipForGet)
+			if it.Err != nil {
+				return errNode(meta.ErrRead, "", it.Err)
+			}
+			for j := range keys {
+				if keys[j].Path.Type() == PathStrKey && keys[j].Path.str() == key {
 					keys[j].Node = self.slice(s, e, et)
 					count += 1
 					break
 				}
 			}
+		} else if mode == PathIntKey {
+			_, key, s, e := it.NextInt(UseNativeSkipForGet)
+			if it.Err != nil {
+				return errNode(meta.ErrRead, "", it.Err)
+			}
+			for j := range keys {
+				if keys[j].Path.Type() == PathIntKey && keys[j].Path.int() == key {
+					keys[j].Node = self.slice(s, e, et)
+					count += 1
+					break
+				}
+			}
+		} else {
+			return errNode(meta.ErrUnsupportedType, "invalid map key path", nil)
 		}
 	}
 	return nil
